@@ -252,6 +252,10 @@ def run(tier):
                                          os.path.join(wd, "mc%d%s" % (ml, sd)), workers=16, timeout=2400), "MC_Parsers")
             rep.add_mc("MC_Parsers: reader total over %s up to %d cells" % ("arbitrary continuations of every prefix of valid files" if sd == "TRUE" else "ALL cell strings", ml),
                        res, {"MaxLen": ml, "Seeded": sd, "alphabet": 9})
+        tl = 6 if tier == "quick" else 7
+        tres = tlc.require_ok(tlc.run(os.path.join(SPEC, "MC_Text.tla"), 'INIT Init\nNEXT Next\nCONSTANTS Mode = "total"\nMaxBin = 0\nMaxLen = %d\nINVARIANT Total\n' % tl,
+                                      os.path.join(wd, "mctext"), workers=16, timeout=1800), "MC_Text/total")
+        rep.add_mc("MC_Text: the text-envelope reader is total over ALL character strings up to %d over {hex digits, non-hex letter, ':', blank, LF, CR}" % tl, tres)
         # the reader as an explicit step machine: refines the functional reader, terminates, variant decreases
         for ml, sd in (((4, "FALSE"),) if tier == "quick" else ((5, "FALSE"), (2, "TRUE"))):
             rcfg = ("SPECIFICATION Spec\n" + C3.sw_cfg() + "MaxLen = %d\nSeeded = %s\nINVARIANT Refines\nINVARIANT OutcomeClass\n"
